@@ -77,6 +77,29 @@ def merge_refuse(res, rng, tier):
                 for o in (a, b):
                     for j in range(3):
                         o.add(bytes([j, 7]) * (j + 1), j + 1)
+                # the same pair with an EMPTY argument (an idle worker's sketch) and with an empty receiver: compatibility does not depend on contents
+                for ea, eb in ((False, True), (True, False)):
+                    a0, b0 = (_mk(da) if ea else a), (_mk(db) if eb else b)
+                    s0a, s0b = _arrays(a0), _arrays(b0)
+                    want0 = "accept" if _compatible(da, db) else "TypeError"
+                    if want0 == "TypeError":
+                        try:
+                            a0.merge(b0)
+                            got0 = "accept"
+                        except TypeError:
+                            got0 = "TypeError"
+                        except Exception as e:  # noqa
+                            got0 = type(e).__name__
+                        res.evaluations += 1
+                        if got0 != "TypeError":
+                            res.oracle_failures.append({"pid": "C15", "what": f"C15 {da}.merge({db}) with an EMPTY {'receiver' if ea else 'argument'} -> {got0}, the property requires TypeError",
+                                                        "a": da, "b": db})
+                        elif _arrays(a0) != s0a or _arrays(b0) != s0b:
+                            res.oracle_failures.append({"pid": "C15", "what": f"C15 refused merge {da}.merge({db}) (one operand empty) changed an operand", "a": da, "b": db})
+                    if ea:
+                        del a0
+                    if eb:
+                        del b0
                 sa, sb = _arrays(a), _arrays(b)
 
                 def answers(o):
@@ -248,6 +271,43 @@ def truncate(res, rng, tier):
                 if L == len(data) and oc != "O":
                     res.oracle_failures.append({"pid": "C20", "what": f"C20 {label}: the complete file does not load ({oc})", "label": label, "L": L})
                 del obj
+            # the SAME path, first holding the complete file (loaded with shared_memory=True through every loader, the sketches kept alive),
+            # then truncated in place: whatever a loader remembers about a path must not stand in for reading the file
+            keep = []
+            p2 = tmpfile()
+            try:
+                with open(p2, "wb") as f:
+                    f.write(data)
+                for ldr in [cl] + ([ml] if ml is not None else []):
+                    try:
+                        keep.append(ldr(p2, shared_memory=True))
+                    except TypeError:
+                        keep.append(ldr(p2, True))
+                nL = len(data)
+                for L in sorted({0, 1, 4, 30, nL // 3, nL // 2, nL - 23, nL - 22, nL - 1}):
+                    if L < 0 or L >= nL:
+                        continue
+                    with open(p2, "wb") as f:
+                        f.write(data[:L])
+                    for ldr in [cl] + ([ml] if ml is not None else []):
+                        for shm_flag in (True, False):
+                            try:
+                                obj = ldr(p2, shm_flag)
+                                oc = "O"
+                            except Exception:
+                                obj, oc = None, "raise"
+                            n += 1
+                            if oc == "O":
+                                res.oracle_failures.append({"pid": "C20", "what": f"C20 {label}: the file at a path that had been loaded before (shared_memory=True, sketch still alive) was "
+                                                                                     f"truncated to {L} of {nL} bytes and load(path, shared_memory={shm_flag}) RETURNED a sketch",
+                                                            "label": label, "L": L, "signature": "C20:stale-path-loaded"})
+                            del obj
+                res.count("prefixes_at_a_previously_loaded_path")
+            finally:
+                del keep
+                gc.collect()
+                if os.path.exists(p2):
+                    os.unlink(p2)
             # the truncated copy under ANOTHER name next to the complete file (`x.part`, `x.tmp`, `x` beside `x.npz` — an interrupted
             # copy or download): the loader must open the file it is given, not a sibling
             d = tempfile.mkdtemp(prefix="skverif_sib_", dir=TMPDIR)
@@ -862,6 +922,20 @@ def entry_real(res, rng, tier):
         keys = key_alphabet(rng, 6)
         entry = rng.choice(["update_list", "update_dict", "add_mult", "add_ngram", "update_ngram", "getitem"])
         budget = 1500  # keep log draws inside the first batch
+        # "identical resulting state" includes whatever decides the future: in half of the cases a key is added (or queried) first on both sketches and
+        # added once more on both after the entry point — two sketches in the same state must still be in the same state afterwards
+        prelude = rng.choice(keys) if rng.random() < 0.5 and entry != "getitem" else None
+        pre_mode = rng.choice(["add", "query"])
+        if prelude is not None:
+            for o in (a, b):
+                if pre_mode == "add" or kind == "hll":
+                    o.add(prelude)
+                else:
+                    try:
+                        o.query(prelude[:mkl]) if kind != "hh" else o[prelude[:mkl]]
+                    except Exception:
+                        pass
+            res.count("entry_with_continuation")
         if entry == "update_list":
             l = [rng.choice(keys) for _ in range(rng.randrange(0, 12))]
             a.update(l)
@@ -917,6 +991,14 @@ def entry_real(res, rng, tier):
             desc = {}
         if _state(a) != _state(b) or (hasattr(a, "rand_ptr") and int(a.rand_ptr) != int(b.rand_ptr)):
             res.oracle_failures.append({"pid": "C12", "what": f"C12 {kind} (width {w}, depth {d}): {entry} {desc} differs from the loop of single adds", "kind": kind, "entry": entry, "desc": desc})
+        elif prelude is not None:
+            a.add(prelude)
+            b.add(prelude)
+            if _state(a) != _state(b) or (hasattr(a, "rand_ptr") and int(a.rand_ptr) != int(b.rand_ptr)):
+                res.oracle_failures.append({"pid": "C12", "what": f"C12 {kind} (width {w}, depth {d}): after {pre_mode}({prelude.hex()}) and {entry} {desc} the sketch and the one filled by single adds hold the same "
+                                                                 f"counters, yet one more add({prelude.hex()}) on each sends them apart — the entry point left a different state behind",
+                                            "kind": kind, "entry": entry, "desc": desc, "prelude": prelude.hex()})
+            desc = dict(desc, prelude=prelude.hex(), pre_mode=pre_mode)
         n += 1
         res.evaluations += 1
         res.nontrivial(["entry", kind, entry, desc, w, d])
@@ -1000,7 +1082,12 @@ def hll_query(res, rng, tier):
             arrays.append((f"uniform-{r}", np().full(m, r, np().uint8)))
         for label, regs in arrays:
             h.registers[:] = regs
-            real = float(h.query())
+            try:
+                real = float(h.query())
+            except Exception as e:  # the estimator must return a number for EVERY register state
+                res.oracle_failures.append({"pid": "C17", "what": f"C17 p={p} registers `{label}`: query() raised {type(e).__name__}: {e}", "p": p, "label": label})
+                res.oracle_failures.append({"pid": "C07", "what": f"C07 p={p} registers `{label}`: query() raised {type(e).__name__}: {e}", "p": p, "label": label})
+                continue
             lst = [int(x) for x in regs]
             want, branch = _py_estimator(p, lst, raw, bias, thr)
             # margin to the branch boundary
